@@ -56,6 +56,8 @@ pub struct Counters {
     pub distinct: BTreeMap<String, BTreeSet<u64>>,
     pub samples: Vec<Value>,
     pub max_samples: usize,
+    /// a few written-out rare events per key (panic messages, discarded scenarios, ...)
+    pub notes: BTreeMap<String, Vec<String>>,
 }
 
 impl Counters {
@@ -92,7 +94,21 @@ impl Counters {
             self.samples.push(v());
         }
     }
+    pub fn note(&mut self, k: &str, msg: impl FnOnce() -> String) {
+        let v = self.notes.entry(k.to_string()).or_default();
+        if v.len() < 3 {
+            v.push(msg());
+        }
+    }
     pub fn merge(&mut self, o: Counters) {
+        for (k, v) in o.notes {
+            let e = self.notes.entry(k).or_default();
+            for m in v {
+                if e.len() < 3 {
+                    e.push(m);
+                }
+            }
+        }
         for (k, v) in o.c {
             if k.starts_with("max_") {
                 self.max(&k, v);
@@ -314,6 +330,9 @@ pub fn write_evidence(rep: &Report, violations: usize) {
         cov.insert("exhaustive".into(), json!(true));
     }
     cov.insert("counters".into(), rep.counters.to_json());
+    if !rep.counters.notes.is_empty() {
+        cov.insert("notes".into(), json!(rep.counters.notes));
+    }
     let per_hour = if rep.wall_s > 0.0 { (rep.evaluations as f64 / rep.wall_s * 3600.0) as u64 } else { 0 };
     cov.insert("runs_per_hour".into(), json!(per_hour));
     cov.insert("workers".into(), json!(n_workers()));
